@@ -124,7 +124,7 @@ func init() {
 					kind = "random2"
 					copy(mut[s:e], rng.Bytes(e-s))
 				}
-				c2, err := x509.ParseCertificate(mut)
+				c2, err := safeParseCert(mut)
 				if err != nil {
 					classes["parser rejects "+kind]++
 					continue
